@@ -571,12 +571,15 @@ def translate_remove(en):
     if not ok:
         raise TranslatorError(f"{where}: the hash comparison before the removal changed")
     remove_now = _ws("if _try_remove(path.remove):\n    await reporter('REMOVE', path)")
+    remove_or_keep = _ws("if _try_remove(path.remove):\n    await reporter('REMOVE', path)\n"
+                         "elif path.exists():\n    leftovers[file_path] = old_hash")
     last = _ws(ast.unparse(lb[3]))
+    requeues = False
+    idx = body.index(loops[0])
     if last == remove_now and len(loops) == 1:
         decide_first = False
     elif last == "removable.append(path)" and len(loops) == 2:
         # two passes: every decision is taken on the tree as it was, then the removals
-        idx = body.index(loops[0])
         second = loops[1]
         ok = (idx > 0 and _ws(ast.unparse(body[idx - 1])) == "removable = []" and body.index(second) == idx + 1
               and ast.unparse(second.target) == "path" and ast.unparse(second.iter) == "removable" and not second.orelse
@@ -584,8 +587,43 @@ def translate_remove(en):
         if not ok:
             raise TranslatorError(f"{where}: two-pass removal not in the recognised shape")
         decide_first = True
+    elif last == "removable.append((file_path, path, old_hash))" and len(loops) == 3:
+        # two passes, and a path whose removal failed but which still exists is remembered ...
+        second, third = loops[1], loops[2]
+        before = [_ws(ast.unparse(x)) for x in body[:idx]]
+        ok = ("removable = []" in before and "leftovers = {}" in before and body.index(second) == idx + 1
+              and _ws(ast.unparse(second.target)) == "(file_path, path, old_hash)" and ast.unparse(second.iter) == "removable"
+              and not second.orelse and [_ws(ast.unparse(x)) for x in second.body] == [remove_or_keep])
+        # ... and put back into the queue after it was cleared
+        ok = ok and (_ws(ast.unparse(third.target)) == "(file_path, old_hash)" and ast.unparse(third.iter) == "leftovers.items()"
+                     and not third.orelse and [_ws(ast.unparse(x)) for x in third.body] ==
+                     ["workflow.to_be_deleted[file_path] = old_hash",
+                      "workflow.mark_dir_to_be_deleted(Path(file_path).parent)"])
+        if not ok:
+            raise TranslatorError(f"{where}: requeueing variant not in the recognised shape")
+        decide_first, requeues = True, True
     else:
         raise TranslatorError(f"{where}: the removal statement of the file loop changed: {last[:80]!r}")
+    # Workflow.to_be_deleted outlives the function (it lives as long as the Workflow object, i.e. across the build
+    # phases of one director): what the function leaves in it is what the next cleanup starts with.  The queue must
+    # be cleared after the directories were pruned, and nothing may follow the clear() except the recognised
+    # requeueing loop.
+    texts = [_ws(ast.unparse(x)) for x in body]
+    if texts.count("workflow.to_be_deleted.clear()") != 1:
+        raise TranslatorError(f"{where}: expected exactly one workflow.to_be_deleted.clear()")
+    ci = texts.index("workflow.to_be_deleted.clear()")
+    if ci < 1 or texts[ci - 1] != "await _prune_empty_dirs(dirs, reporter)":
+        raise TranslatorError(f"{where}: the queue is not cleared right after the directories were pruned")
+    after = body[ci + 1:]
+    if requeues:
+        if after != [loops[2]]:
+            raise TranslatorError(f"{where}: statements after to_be_deleted.clear() not understood")
+    elif after:
+        raise TranslatorError(f"{where}: statements after to_be_deleted.clear(): {texts[ci + 1][:80]!r}")
+    writes = [n for n in ast.walk(fn) if isinstance(n, ast.Subscript) and isinstance(n.ctx, ast.Store)
+              and ast.unparse(n.value) == "workflow.to_be_deleted"]
+    if len(writes) != (1 if requeues else 0):
+        raise TranslatorError(f"{where}: unexpected assignment into workflow.to_be_deleted")
     # nothing else in the function removes anything
     nrem = sum(1 for n in ast.walk(fn) if isinstance(n, ast.Attribute) and n.attr in REMOVERS)
     if nrem != 1:
@@ -606,7 +644,7 @@ def translate_remove(en):
     src = ast.unparse(fn)
     if not _has(src, "try:\n        remove()\n    except OSError:\n        return False\n    return True"):
         raise TranslatorError("_try_remove changed")
-    return checked, decide_first
+    return checked, decide_first, requeues
 
 
 def translate_clean(en):
@@ -794,7 +832,7 @@ def generate():
     sql_kinds = classify_sql_sites(sql_sites)
     table = translate_hash_transitions()
     r_need, r_from, r_to, r_exempt, r_step_to = translate_revert(en)
-    rdf_checked, rdf_decide_first = translate_remove(en)
+    rdf_checked, rdf_decide_first, rdf_requeues = translate_remove(en)
     clean_states, clean_missing_follows, clean_checked = translate_clean(en)
     sites, callers = scan_removal_sites()
     unknown = [s for s in sites if s not in KNOWN_REMOVAL_SITES]
@@ -901,6 +939,9 @@ def generate():
         "  match k with " + " | ".join(f"{k} => {'true' if rdf_checked[k] else 'false'}" for k in FKINDS) + " end.",
         "(* are all decisions taken before the first removal (two loops) or one path at a time (one loop)? *)",
         f"Definition rdf_decide_first : bool := {'true' if rdf_decide_first else 'false'}.",
+        "(* does anything survive in Workflow.to_be_deleted when the function returns?  false: the queue is cleared last;",
+        "   true: paths whose removal failed but which still exist are put back after the clear(), with their directories *)",
+        f"Definition rdf_requeues_failed : bool := {'true' if rdf_requeues else 'false'}.",
         "(* clean.py clean: `missing` follows symbolic links (exists) or not (lexists); kinds for which the hash is compared *)",
         f"Definition clean_missing_follows_links : bool := {'true' if clean_missing_follows else 'false'}.",
         "Definition clean_hash_checked (k : fkind) : bool :=",
@@ -916,6 +957,6 @@ def generate():
              "declare_sites": declare_sites, "create_sites": create_sites, "removal_sites": sites,
              "callers": sorted(cl), "fs": fs,
              "mark_dir_skips_static_trees": skips_trees, "keep_volatile_on_supply": keep_vol,
-             "rdf_hash_checked": rdf_checked, "rdf_decide_first": rdf_decide_first,
+             "rdf_hash_checked": rdf_checked, "rdf_decide_first": rdf_decide_first, "rdf_requeues_failed": rdf_requeues,
              "clean_missing_follows_links": clean_missing_follows, "clean_hash_checked": clean_checked}
     return "\n".join(lines), facts
